@@ -7,7 +7,7 @@ use vstd::utf8::*;
 use vstd::std_specs::hash::*;
 use vstd::std_specs::btree::key_obeys_cmp_spec;
 use vstd::std_specs::char::is_white_space;
-use std::collections::{BTreeMap, HashMap};
+use std::collections::{BTreeMap, HashMap, HashSet};
 use std::cmp;
 use std::iter::Peekable;
 use std::str::Chars;
